@@ -1041,9 +1041,12 @@ def _mujoco_contact_forces(ctx):
     Gymnasium fills `cfrc_ext` after every control step (`mj_rnePostConstraint` in `do_simulation`); the
     contact-force block of the observation and the contact / impact cost are part of the v5 semantics.
     HumanoidStandup lies on the floor from the reset on, and MJX and MuJoCo C agree there to ~1e-3
-    relative, so the comparison is made on it (thorough: Humanoid and Ant too), only on transitions after
+    relative, so the comparison is made on it (thorough: Humanoid too), only on transitions after
     which the two simulators' positions agree, with a tolerance of 2 % of the largest contact force."""
-    names = ["HumanoidStandup"] if ctx.quick else ["HumanoidStandup", "Humanoid", "Ant"]
+    # (Ant is left out: its reported forces are clipped to [-1, 1] and the two engines resolve its leg
+    #  impacts differently, so the clipped blocks differ although lerax assembles them correctly — the Ant
+    #  formulas are covered by the assembly part on one simulator's quantities)
+    names = ["HumanoidStandup"] if ctx.quick else ["HumanoidStandup", "Humanoid"]
     k = _key()
     for name in names:
         opts = {}
@@ -1185,5 +1188,5 @@ def run(ctx):
              "across simulators — the two engines resolve impacts differently (O(0.1-1) in joint velocities); "
              "those states are covered by the assembly part")
     ctx.note("contact forces (cfrc_ext): through the assembly models on quantities of one simulator everywhere; "
-             "between MJX and MuJoCo C on HumanoidStandup (thorough: Humanoid, Ant) on transitions after which "
+             "between MJX and MuJoCo C on HumanoidStandup (thorough: Humanoid) on transitions after which "
              "the two simulators' positions agree, to 2 % of the largest force")
